@@ -1,52 +1,9 @@
 ---------------------------- MODULE Gen_Selector ----------------------------
-(* Behaviour generator for C06/C07 (leg A): enumerates selector ASTs (the format of module
-   Selectors) over a tiny vocabulary and prints them in chunks, one `BEH` line per chunk:
-     - every leaf (all, global, has, the five label/value operators, in / not in with every subset of
-       the value vocabulary),
-     - every AST of depth 2: !leaf, leaf && leaf, leaf || leaf  (all ordered pairs),
-     - depth 3 over a reduced leaf set: !(l op l), (l op l) op l, l op (l op l), (!l) op l, 3-ary chains.
-   The driver renders each AST to text in several spellings and feeds it to the real parser.      *)
-EXTENDS Naturals, Sequences, TLC, Json
+(* Behaviour generator for C06/C07 (leg A): prints the ASTs of module SelEnum in chunks, one `BEH` line
+   per chunk.  The driver renders each AST to text in several spellings and feeds it to the real parser. *)
+EXTENDS SelEnum, TLC, Json
 
 CONSTANTS Chunk, Depth3         \* ASTs per behaviour; include the depth-3 families
-KeySeq == <<"a", "b">>
-ValSeq == <<"x", "xy">>
-SetSeq == << <<>>, <<"x">>, <<"xy">>, <<"x", "xy">> >>
-
-RECURSIVE Flatten(_)
-Flatten(ss) == IF ss = <<>> THEN <<>> ELSE Head(ss) \o Flatten(Tail(ss))
-
-\* sequence of f[i, j] over the index ranges
-Cross(n, m, F(_, _)) == [i \in 1..(n * m) |-> F(((i - 1) \div m) + 1, ((i - 1) % m) + 1)]
-
-KV(op) == Cross(Len(KeySeq), Len(ValSeq), LAMBDA i, j : [op |-> op, k |-> KeySeq[i], v |-> ValSeq[j]])
-KS(op) == Cross(Len(KeySeq), Len(SetSeq), LAMBDA i, j : [op |-> op, k |-> KeySeq[i], vs |-> SetSeq[j]])
-HasSeq == [i \in 1..Len(KeySeq) |-> [op |-> "has", k |-> KeySeq[i]]]
-
-Leaves == <<[op |-> "all"], [op |-> "global"]>> \o HasSeq
-          \o KV("eq") \o KV("ne") \o KV("contains") \o KV("startswith") \o KV("endswith")
-          \o KS("in") \o KS("notin")
-
-Not(a) == [op |-> "not", a |-> a]
-Bin(op, a, b) == [op |-> op, args |-> <<a, b>>]
-Tri(op, a, b, c) == [op |-> op, args |-> <<a, b, c>>]
-
-Nots(S) == [i \in 1..Len(S) |-> Not(S[i])]
-Bins(op, S, T) == Cross(Len(S), Len(T), LAMBDA i, j : Bin(op, S[i], T[j]))
-
-Depth2 == Nots(Leaves) \o Bins("and", Leaves, Leaves) \o Bins("or", Leaves, Leaves)
-
-\* reduced leaf set for depth 3
-L3 == << [op |-> "eq", k |-> "a", v |-> "x"], [op |-> "ne", k |-> "b", v |-> "x"], [op |-> "has", k |-> "a"],
-         [op |-> "in", k |-> "b", vs |-> <<"x", "xy">>], [op |-> "startswith", k |-> "a", v |-> "x"],
-         [op |-> "notin", k |-> "a", vs |-> <<"xy">>] >>
-B3 == Bins("and", L3, L3) \o Bins("or", L3, L3)
-Depth3Seq ==
-    Nots(B3)
-    \o Bins("and", B3, L3) \o Bins("or", B3, L3) \o Bins("and", L3, B3) \o Bins("or", L3, B3)
-    \o Bins("and", Nots(L3), L3) \o Bins("or", L3, Nots(L3))
-    \o Flatten([i \in 1..Len(L3) |-> Cross(Len(L3), Len(L3), LAMBDA j, m : Tri("and", L3[i], L3[j], L3[m]))])
-    \o Flatten([i \in 1..Len(L3) |-> Cross(Len(L3), Len(L3), LAMBDA j, m : Tri("or", L3[i], L3[j], L3[m]))])
 
 All == Leaves \o Depth2 \o (IF Depth3 THEN Depth3Seq ELSE <<>>)
 NChunks == (Len(All) + Chunk - 1) \div Chunk
